@@ -22,6 +22,12 @@ func (t *AlwaysAvailableTrack) UnmarshalJSON(b []byte) error {
 		return err
 	}
 
+	return t.validate()
+}
+
+// validate is also called by Path.validate(), since tracks can be filled member by member
+// through environment variables, without passing through UnmarshalJSON.
+func (t *AlwaysAvailableTrack) validate() error {
 	switch t.Codec {
 	case CodecAV1, CodecVP9, CodecH265, CodecH264, CodecOpus:
 		if t.SampleRate != 0 {
